@@ -332,6 +332,12 @@ def replay(ctx, prop, path):
     payload = json.load(open(path))
     h = [tuple(x) for x in payload['history']]
     if not h or h[-1][0] != 'Cycle':
+        opened = False
+        for e in h:
+            opened = (e[0] == 'Defer') or (opened and e[0] not in ('Deliver', 'Cycle', 'Restart',
+                                                                    'CrashCycle', 'CrashRestart'))
+        if opened:
+            h.append(('Deliver', []))      # (a line of its own: the cycle's pre-state is the drained view)
         h.append(('Cycle', []))
     if payload.get('kind') == 'sched_l2':
         scn_name = payload.get('scenario', 'base')
